@@ -960,6 +960,13 @@ def check_configured_thresholds(ctx, prop, index, scores, level, plan_cfg, kind)
             row = tuple(float(c.matching_threshold_list[0]) for c in sc.clears)
         got.setdefault(sc.matching_mode.value, []).append(row)
     got = {k: sorted(v) for k, v in got.items()}
+    want_labels = [V.canonical_label(l, bool(plan_cfg["merge"])) for l in plan_cfg["target_labels"]]
+    for sc in scores:
+        have = [l.value for l in sc.target_labels]
+        if have != want_labels:
+            ctx.violate(prop, "configured_thresholds", "%s %s score lists the labels %s, the per-label thresholds were configured for %s" % (
+                level, sc.matching_mode.value, have, want_labels), {}, index)
+            return
     if got != {k: v for k, v in want.items() if v}:
         ctx.violate(prop, "configured_thresholds", "%s scores are computed for %s, configured were %s" % (
             level, {k: len(v) for k, v in sorted(got.items())}, {k: len(v) for k, v in sorted(want.items())}),
